@@ -599,6 +599,10 @@ func runPace(c ProtoCase, out *core.Outcome) {
 	if c.Mode == "genuine" {
 		if !success {
 			out.Violate("C04", "pace-interop", cell, "PACE with the right password against the conforming reference chip failed (password route %s, layout %s): %v", c.Spec.Password, w.Holder.Layout, perr)
+			if sel.CAM {
+				// the chip holds the CardSecurity key and proved it inside this run: the chip-authentication leg failed with it
+				out.Violate("C06", "cam-key-holder-rejected", cell, "PACE-CAM against the key-holding chip failed (CardSecurity keys: %d extra, signer variant %d): %v", c.Spec.CardSecExtraKeys, c.Spec.CardSecVariant, perr)
+			}
 		} else {
 			if ok, why := sameSession(d.nfc.SM(), d.chip.SMState()); !ok {
 				out.Violate("C04", "session-state-differs", cell, "after PACE: %s", why)
